@@ -255,7 +255,7 @@ func init() {
 			}
 			return false, "the same call on an engine without the uniqueness flags succeeds (" + obs + ") and leaves no duplicate pair"
 		}
-		cfg := e1.Config{Alphabet: calls, Depth: depth, Stop: r.TooMany,
+		cfg := e1.Config{ReplayNames: c.ReplayCalls(), Alphabet: calls, Depth: depth, Stop: r.TooMany,
 			After: func(w *world.World, path []int, pre interface{}, obs string) {
 				names := e1.Names(calls, path)
 				for _, p := range uniqueProblems(w.Engine.Catalog()) {
@@ -275,7 +275,7 @@ func init() {
 		cfg.Before = func(w *world.World, path []int) interface{} { return nil }
 		st := e1.BFS(cfg)
 		// exactness pass: every (state, single-write call) whose call reports a uniqueness error
-		exact := e1.Config{Alphabet: calls, Depth: depth, Stop: r.TooMany}
+		exact := e1.Config{ReplayNames: c.ReplayCalls(), Alphabet: calls, Depth: depth, Stop: r.TooMany}
 		exact.After = func(w *world.World, path []int, pre interface{}, obs string) {
 			if obs != "dup" {
 				return
